@@ -469,3 +469,39 @@ def unversion(block, i: int):
     if not vals:
         return block
     return Sigma(raw_subst={v: p for v in vals}).apply(block)
+
+
+def collect_of(block, var):
+    """how the local list ``var`` is filled: [(iterable, loop target, element, condition)] for every top-level loop
+    ``for t in it: [if c:] var.append(e)`` whose body is just that (the form list comprehensions have in the normal
+    form); None when ``var`` is not initialised to [] or is filled in any other way"""
+    from framelint.canon import K_TRUE
+    inits = [st for st in block if st[0] == "set" and len(st) == 3 and st[1] == var]
+    if not inits:
+        # the list may live in a nested block (the arm of a conditional that returns it)
+        for st in block:
+            if st[0] == "if" and len(st) == 4:
+                for arm in (st[2], st[3]):
+                    if contains(arm, var):
+                        return collect_of(arm, var)
+            elif st[0] in ("for", "while") and contains(st, var):
+                return collect_of(st[3] if st[0] == "for" else st[2], var)
+        return None
+    if len(inits) != 1 or inits[0][2] != ("list", ()):
+        return None
+    out = []
+    for st in block:
+        if st[0] == "for" and len(st) == 5 and contains(st[3], var):
+            body = st[3]
+            if len(body) != 1:
+                return None
+            b = body[0]
+            cond = K_TRUE
+            if b[0] == "if" and len(b) == 4 and not b[3] and len(b[2]) == 1:
+                cond, b = b[1], b[2][0]
+            if not (b[0] == "expr" and b[1][0] == "c" and b[1][1] == ("a", var, "append") and len(b[1][2]) == 1):
+                return None
+            out.append((st[2], st[1], b[1][2][0], cond))
+        elif st[0] not in ("set", "ret") and contains(st, var):
+            return None
+    return out
